@@ -1,4 +1,5 @@
 """C16 Platform tag sequences match the platform's real compatibility range."""
+import core
 from core import Case
 import gen_plat as G
 
@@ -13,15 +14,62 @@ ASSUMPTIONS = [
     "the `_manylinux` policy module is a pure function of (major, minor, arch) (it is called twice for a legacy tag)",
     "mixed architecture lists get one floor for the whole list, as the code does (2.5 if x86_64 or i686 is anywhere in the list): "
     "the realistic lists are [arch] or [armv8l, armv7l]; the monotonicity/exactness theorems are stated per list",
-    "ELF offsets/sizes >= 2**63 are exercised on io.BytesIO only; images read through a real file (sys.executable) keep offsets below 2**32, "
-    "since regular files fail differently on huge offsets (OSError/MemoryError, caught or not depending on the caller)",
+    "images read through a real file (sys.executable, stream elf-file) use offsets/sizes either below 2**32 or from {2**50, 2**62, 2**63-1, 2**63, max}: "
+    "where lseek / the read buffer start to refuse is machine dependent (file system limit, memory); the model takes the two limits as parameters "
+    "(ElfDisk.v) and the harness passes the nominal 2**48 for both - values between 2**32 and 2**50 are not generated",
+    "subprocess.run for the musl loader is a stand-in that raises what the real one raises for such an argv (ValueError: embedded NUL; "
+    "FileNotFoundError: the path is not in the case's list of existing loaders) and else returns the case's loader output; other failures of a real "
+    "exec (PermissionError, ENOEXEC) are not modelled",
+    "findings D27/D41/D42/D43 (mixed-list floor, musl loader exceptions, superset across glibc majors, iOS minors above 9): their law cases are "
+    "generated only when the id is registered in known_findings.txt; the model-side streams cover the same inputs as agreement model = code",
     "version digits are ASCII; `\\d` and int() also accept other Unicode decimal digits (not modelled, not generated in the musl loader output)",
-    "subprocess.run (the musl loader, the macOS version re-read) is an oracle: its output text is a parameter",
+    "the OUTPUT of subprocess.run (the musl loader's banner, the macOS version re-read) is a parameter of the model",
     "os.fsdecode is UTF-8/surrogateescape (checked: it round-trips every byte), so the interpreter path is compared as bytes",
     "platform.mac_ver()/ios_ver() release strings have at least two integer components",
 ]
 TRUSTED_EXTRA = ["struct: the layout is modelled and proved (pack/unpack codec); its error on short reads is assumed",
-                 "file seek/read: modelled for io.BytesIO (short reads, OverflowError from 2**63 on)"]
+                 "file seek/read: modelled for io.BytesIO (short reads, OverflowError from 2**63 on) and for a regular file (refusal from the two limits on)"]
+
+# Departures of the code from the TEXT of the statement, confirmed on the real code.  Their law cases are generated only once the
+# finding is registered in known_findings.txt (ids below; proposed lines in harness/props/PROPOSED_FINDINGS_tags.txt), so that the
+# check is green with and without the registration; the matchers are narrow (input class and the observed wrong answer).
+ID_MIXED_FLOOR, ID_MUSL_RAISES, ID_CROSS_MAJOR, ID_IOS_MINOR = "D27", "D41", "D42", "D43"
+REGISTERED = {f["id"] for f in core.load_findings("C16")}
+SEEK = READ = str(G.DISK_LIMIT)
+
+
+def plist(s):
+    return s.split(",")[1:]
+
+
+def floor_class(a):
+    return a in ("x86_64", "i686")
+
+
+def mixed_floor(archs):
+    return len({floor_class(a) for a in archs}) > 1
+
+
+def match_d27(case, impl, model):
+    return (case.cmd == "law.p.many2" and mixed_floor(plist(case.args[0])) and isinstance(impl, str)
+            and impl.startswith("manylinux: tag below the per-architecture floor"))
+
+
+def match_d41(case, impl, model):
+    return case.cmd == "law.p.noraise" and impl in ("musllinux platform_tags raised ValueError", "musllinux platform_tags raised FileNotFoundError")
+
+
+def match_d42(case, impl, model):
+    if case.cmd != "law.p.many2" or not isinstance(impl, str): return False
+    M, m, M2 = int(case.args[1]), int(case.args[2]), int(case.args[3])
+    return M < M2 and (m > 50 or M < 2) and impl.startswith("manylinux: glibc %d.%d offers a tag that" % (M, m))
+
+
+def match_d43(case, impl, model):
+    if case.cmd != "law.p.ios" or not isinstance(impl, str): return False
+    M, m, M2 = int(case.args[0]), int(case.args[1]), int(case.args[2])
+    return M < M2 and m > 9 and impl.startswith("iOS: %d.%d offers a tag that" % (M, m))
+
 
 MAC_ARCHS = ["x86_64", "arm64", "i386", "ppc", "ppc64", "intel", "universal2", "universal", "fat", "riscv"]
 
@@ -56,14 +104,29 @@ def rand_ctypes(rng):
 def musl_exe(rng):
     r = rng.random()
     if r < 0.08: return "X"
-    data, _ = G.rand_elf(rng, clean=rng.random() < 0.75, file_safe=True, want="musl" if rng.random() < 0.8 else None)
+    # read through a real file: mostly small offsets, sometimes offsets/sizes the file system / memory cannot serve (disk=True)
+    safe = rng.random() < 0.7
+    data, _ = G.rand_elf(rng, clean=rng.random() < 0.75, file_safe=safe, disk=not safe, want="musl" if rng.random() < 0.8 else None)
     return "F" + G.b2s(data)
+
+
+def rand_loaders(rng):
+    """which loader paths exist for subprocess.run: '*' = all, else an explicit list (the PT_INTERP path may or may not be in it)"""
+    r = rng.random()
+    if r < 0.55: return "*"
+    paths = [G.b2s(x.strip(b"\0")) for x in G.INTERPS if b"musl" in x and b"\0" not in x.strip(b"\0")]
+    if r < 0.9: return "".join("," + x for x in rng.sample(paths, rng.randrange(0, len(paths) + 1)))
+    return ",/nonexistent"
 
 
 def linux_args(rng, archs):
     cs = rand_confstr(rng)
     ct = rand_ctypes(rng) if cs[0] != "S" or rng.random() < 0.3 else "I"
     return [cs, ct, exe_for(rng, archs) if rng.random() < 0.6 else musl_exe(rng), G.rand_policy(rng, archs), G.rand_musl_output(rng)]
+
+
+def tail_args(rng):
+    return [rand_loaders(rng), SEEK, READ]
 
 
 def streams(rng, tier):
@@ -97,7 +160,7 @@ def streams(rng, tier):
     # ---- musllinux
     for _ in range(1500 if q else 20000):
         archs = rng.choice(G.ARCH_LISTS if rng.random() < 0.5 else G.GOOD_ARCH_LISTS)
-        out.append(Case("musllinux", "p.musl", [enc_list(archs), musl_exe(rng), G.rand_musl_output(rng)]))
+        out.append(Case("musllinux", "p.musl", [enc_list(archs), musl_exe(rng), G.rand_musl_output(rng)] + tail_args(rng)))
     good = "F" + G.b2s(G.rand_elf(rng, clean=True, file_safe=True)[0])
     for _ in range(100 if q else 3000):
         data, exp = G.rand_elf(rng, clean=True, file_safe=True)
@@ -110,7 +173,7 @@ def streams(rng, tier):
             for arch in (MAC_ARCHS if not q else rng.sample(MAC_ARCHS, 4)):
                 out.append(Case("macos", "p.mac", [str(M), str(m), arch]))
     for _ in range(300 if q else 6000):
-        M = rng.choice([10, 10, 11, 12, 14, 15, 26, 9]); m = rng.randrange(0, 20)
+        M = rng.choice([10, 10, 11, 12, 14, 15, 26, 9]); m = rng.choice([rng.randrange(0, 20), rng.randrange(0, 40)])
         M2 = rng.choice([M, M, M + 1, rng.randrange(9, 28)]); m2 = rng.choice([m, m + 1, rng.randrange(0, 20)])
         out.append(Case("law-macos", "law.p.mac", [str(M), str(m), str(M2), str(m2), rng.choice(MAC_ARCHS)], kind="law"))
     for _ in range(150 if q else 3000):
@@ -118,11 +181,12 @@ def streams(rng, tier):
         sub = "%d.%d%s\n" % (rng.choice([11, 12, 13, 26]), rng.randrange(0, 8), rng.choice(["", ".1"]))
         out.append(Case("macos-default", "p.macdef", ["%d.%d%s" % (M, m, p), rng.choice(MAC_ARCHS[:5]), sub]))
     # ---- iOS
-    for M in range(10, 20):
-        for m in range(0, 12):
+    for M in list(range(10, 20)) + ([] if q else [20, 25, 40]):
+        for m in range(0, 12 if q else 15):
             out.append(Case("ios", "p.ios", [str(M), str(m), rng.choice(["arm64-iphoneos", "arm64-iphonesimulator", "x86_64-iphonesimulator", "arm64_iphoneos", "a-b-c"])]))
     for _ in range(200 if q else 4000):
-        M = rng.randrange(10, 20); m = rng.randrange(0, 14); M2 = rng.choice([M, M + 1, rng.randrange(10, 20)]); m2 = rng.choice([m, m + 1, rng.randrange(0, 14)])
+        M = rng.randrange(10, 26); m = rng.randrange(0, 14); M2 = rng.choice([M, M + 1, rng.randrange(10, 26)]); m2 = rng.choice([m, m + 1, rng.randrange(0, 14)])
+        if M < M2 and m > 9 and ID_IOS_MINOR not in REGISTERED: continue
         out.append(Case("law-ios", "law.p.ios", [str(M), str(m), str(M2), str(m2), "arm64-iphoneos"], kind="law"))
     # ---- _linux_platforms and the platform_tags() dispatch
     PLATS = ["linux-x86_64", "linux-aarch64", "linux-armv7l", "linux-armv8l", "linux-i686", "linux-ppc64le", "linux-s390x", "linux-riscv64", "linux-mips",
@@ -133,7 +197,7 @@ def streams(rng, tier):
         arch = plat.replace("-", "_").replace(" ", "_").split("_", 1)[-1]
         if is32 == "T": arch = {"x86_64": "i686", "aarch64": "armv8l"}.get(arch, arch)
         archs = ["armv8l", "armv7l"] if arch == "armv8l" else [arch]
-        out.append(Case("linux", "p.linux", [is32, plat] + linux_args(rng, archs)))
+        out.append(Case("linux", "p.linux", [is32, plat] + linux_args(rng, archs) + tail_args(rng)))
     for _ in range(800 if q else 10000):
         system = rng.choice(["Linux", "Linux", "Darwin", "iOS", "Windows", "FreeBSD", "", "linux", "Java"])
         plat = rng.choice(PLATS)
@@ -141,8 +205,40 @@ def streams(rng, tier):
         macver = "%d.%d%s" % (rng.choice([10, 10, 11, 13, 15]), rng.choice([0, 9, 15, 16]), rng.choice(["", ".1"]))
         sub = "%d.%d\n" % (rng.choice([11, 12, 14]), rng.randrange(0, 7))
         iosrel = "%d.%d%s" % (rng.randrange(10, 19), rng.randrange(0, 9), rng.choice(["", ".2"]))
-        out.append(Case("platform-tags", "p.plat", [system, plat] + linux_args(rng, [arch]) + [macver, rng.choice(MAC_ARCHS[:4]), sub, iosrel, rng.choice(["arm64-iphoneos", "arm64-iphonesimulator"])]))
+        out.append(Case("platform-tags", "p.plat", [system, plat] + linux_args(rng, [arch]) + [macver, rng.choice(MAC_ARCHS[:4]), sub, iosrel, rng.choice(["arm64-iphoneos", "arm64-iphonesimulator"])] + tail_args(rng)))
+    # ---- ELF images read through a real file (open(path, "rb")): offsets/sizes beyond what lseek / a read buffer can serve
+    for _ in range(1200 if q else 20000):
+        data, _ = G.rand_elf(rng, clean=rng.random() < 0.3, disk=True)
+        out.append(Case("elf-file", "p.elff", [G.b2s(data), SEEK, READ]))
+    # ---- the TEXT of the statement as laws on the real objects: per-architecture floor, superset across majors, exact enumeration
+    for _ in range(500 if q else 8000):
+        archs = rng.choice([a for a in G.ARCH_LISTS if a])
+        if mixed_floor(archs) and ID_MIXED_FLOOR not in REGISTERED: continue
+        M = rng.choice([2, 2, 2, 3, 1, 4]); m = rng.choice([rng.randrange(0, 56), 50, 51, 17, 5])
+        M2 = rng.choice([M, M, M + 1, M + 2]); m2 = rng.choice([m, m + 1, rng.randrange(0, 56)])
+        if M < M2 and (m > 50 or M < 2) and ID_CROSS_MAJOR not in REGISTERED: continue
+        out.append(Case("law-manylinux-text", "law.p.many2", [enc_list(archs), str(M), str(m), str(M2), str(m2), G.rand_policy(rng, archs), exe_for(rng, archs)], kind="law"))
+    if ID_MUSL_RAISES in REGISTERED:
+        for _ in range(150 if q else 3000):
+            out.append(Case("law-musl-noraise", "law.p.noraise", [enc_list(rng.choice(G.GOOD_ARCH_LISTS)), musl_exe(rng), G.rand_musl_output(rng), rand_loaders(rng)], kind="law"))
+    # ---- memoised probes across calls: several executables (keys), changing glibc / loader output, no cache_clear() in between
+    for _ in range(250 if q else 5000):
+        archs = rng.choice(G.GOOD_ARCH_LISTS if rng.random() < 0.6 else [["i686"], ["armv7l"], ["armv8l", "armv7l"]])
+        args = [enc_list(archs)]
+        exes = {k: (exe_for(rng, archs) if rng.random() < 0.4 else musl_exe_safe(rng)) for k in "ABC"}
+        if rng.random() < 0.5: exes["A"] = rng.choice(["X", "Fnot an elf"])       # the ABI check fails first: the glibc memo must stay empty
+        for _ in range(rng.choice([2, 3, 4, 6])):
+            k = rng.choice("AAB" if rng.random() < 0.7 else "ABC")
+            if rng.random() < 0.15: exes[k] = musl_exe_safe(rng)          # the file behind a path changes: the memo is by path
+            args += [k, "Sglibc 2.%d" % rng.choice([17, 17, 20, 28, 5]) if rng.random() < 0.9 else rand_confstr(rng), "I", exes[k],
+                     rng.choice(["-", "-", "MFFF"]), G.rand_musl_output(rng)]
+        out.append(Case("probe-cache", "p.probes", args))
     return out
+
+
+def musl_exe_safe(rng):
+    data, _ = G.rand_elf(rng, clean=rng.random() < 0.85, file_safe=True, want="musl" if rng.random() < 0.85 else None)
+    return "F" + G.b2s(data)
 
 
 def nontrivial(c, i):
